@@ -50,6 +50,8 @@ def run(ctx: Ctx) -> None:
                 ch = attr_chain(a)
                 cfg = pm.cfg(fname)
                 n = node_containing(cfg, call)
+                if ch and len(ch) == 1 and n is not None:
+                    ch = (ch[0], "type")  # the opener token itself is handed over
                 if ch and len(ch) == 2 and ch[1] == "type" and n is not None:
                     c_ = _typefacts(pm, fname).at(n, ch[0])
                     if c_[0] == "in" and c_[1] and set(c_[1]) <= set(bmap):
@@ -210,6 +212,38 @@ def run(ctx: Ctx) -> None:
     ok = bool(rets) and all(any(dcfg.dominates(b, r) and any(s is r for s, _ in b.succ) for b in bodies) for r in rets)
     ctx.ob("R13.6", "parser:CxxParser._discard_ctor_initializer|returns right after discarding the body", ok, msg="the scanner does not return immediately after skipping the function body", node=dc, mod=mod)
 
+    # ---------------------------------------------------------------- R13.7
+    # an attribute-specifier-seq is any run of '[[ ]]' and alignas( ) specifiers: after one specifier the consumer must go on
+    # with every kind it handles, or the next specifier is left in the stream and read as part of the declaration
+    ctx.rule("R13.7", "the attribute-specifier sequence continues with every kind of specifier its loop handles", minimum=1)
+    fa = "_consume_attribute_specifier_seq"
+    fna = pm.fn(fa)
+    handled: Set[str] = set()
+    for x in walk_local(fna):
+        if isinstance(x, ast.Compare) and len(x.ops) == 1 and (attr_chain(x.left) or ("", ""))[-1] == "type":
+            comp = x.comparators[0]
+            if isinstance(x.ops[0], ast.Eq) and isinstance(comp, ast.Constant) and isinstance(comp.value, str):
+                handled.add(comp.value)
+            elif isinstance(x.ops[0], ast.In):
+                try:
+                    handled |= set(F.ev(comp))
+                except Exception:
+                    pass
+    cont: Set[str] = set()
+    for c in walk_local(fna):
+        if isinstance(c, ast.Call) and (pm.resolve(fa, c) or ("", ""))[0] == "lex" and pm.resolve(fa, c)[1] in ("token_if", "token_if_in_set", "token_peek_if"):
+            for a in c.args:
+                e_ = a.value if isinstance(a, ast.Starred) else a
+                try:
+                    v = F.lookup(e_.attr) if isinstance(e_, ast.Attribute) and isinstance(e_.value, ast.Name) and e_.value.id == "self" else F.ev(e_)
+                except Exception:
+                    continue
+                cont |= set(v) if isinstance(v, (set, frozenset, list, tuple)) else {v}
+    starts = set(F.get("_attribute_specifier_seq_start_types"))
+    ctx.ob("R13.7", f"parser:CxxParser.{fa}|continues with {sorted(handled & starts)}", bool(handled & starts) and (handled & starts) <= cont and starts <= handled,
+           msg=f"the loop handles {sorted(handled & starts)} of the specifier kinds {sorted(starts)} but only goes on when the next token is one of {sorted(cont)}: in 'struct [[x]] alignas(8) S' the second specifier is left for the declaration parser",
+           node=fna, mod=mod)
+
     # ---------------------------------------------------------------- R13.4
     ctx.rule("R13.4", "_consume_balanced_tokens interpreted over every short script of bracket tokens: returns right after the balancing closer, keeps every token, a fused ']]' closes two '['; LIFO use of the stack", minimum=4)
     fs, steps = linear.analyse(pm, "_consume_balanced_tokens", {"NEWLINE"})
@@ -296,7 +330,15 @@ def _counting_loop(ctx: Ctx, pm: ParserModel) -> None:
 
     def is_fetch(c: ast.Call) -> bool:
         r = pm.resolve(fname, c)
-        return bool(r) and r[0] == "lex" and r[1] in LEX_CONSUME
+        if r and r[0] == "lex" and r[1] in LEX_CONSUME:
+            return True
+        if isinstance(c.func, ast.Name):
+            # inside an interpreted callee: its own local alias of a consuming accessor
+            for m_ in pm.methods:
+                al = pm.aliases(m_).get(c.func.id)
+                if al and len(al) == 3 and al[:2] == ("self", "lex") and al[2] in LEX_CONSUME:
+                    return True
+        return False
 
     scripts = []
     for n in range(1, 7):
@@ -315,10 +357,36 @@ def _counting_loop(ctx: Ctx, pm: ParserModel) -> None:
     for (s_t, e_t, other) in (("(", ")", "x"), ("{", "}", "(")):
         for seq in scripts:
             toks = [Tok({"S": s_t, "E": e_t, "O": other}[ch]) for ch in seq] + [Tok(e_t), Tok(other)]
-            env13 = {"self": OpaqueWithConstants(cfolder.lookup), start_p: s_t}
+            takes_token = fn.args.args[1].annotation is not None and "LexToken" in norm(fn.args.args[1].annotation)
+            env13 = {"self": OpaqueWithConstants(cfolder.lookup), start_p: (Tok(s_t) if takes_token else s_t), "None": None, "True": True, "False": False}
             if end_p is not None:
                 env13[end_p] = e_t
-            run = Run(cfg, env13, toks, is_fetch)
+            def extern13(call: ast.Call, run_: Run) -> object:
+                # another method of the parser: interpreted from its source on the same token script
+                r_ = pm.resolve(fname, call)
+                if r_ and r_[0] == "self" and r_[1] in pm.methods and r_[1] != "_parse_error" and not any(isinstance(a_, ast.Starred) for a_ in call.args):
+                    callee = pm.fn(r_[1])
+                    if callee.args.vararg is None:
+                        return run_.call_def(callee, [env13["self"]] + [run_.ev(a_) for a_ in call.args], {k_.arg: run_.ev(k_.value) for k_ in call.keywords if k_.arg})
+                    # *initial tokens: bind them as a tuple
+                    import copy as _cp
+                    g = _cp.deepcopy(callee)
+                    va = g.args.vararg.arg
+                    g.args.vararg = None
+                    g.args.args = g.args.args + [ast.arg(arg=va)]
+                    g.args.defaults = []
+                    kw = {k_.arg: run_.ev(k_.value) for k_ in call.keywords if k_.arg}
+                    for a_, d_ in zip(g.args.kwonlyargs, g.args.kw_defaults):
+                        if a_.arg not in kw and isinstance(d_, ast.Constant):
+                            kw[a_.arg] = d_.value
+                    g.args.kwonlyargs, g.args.kw_defaults = [], []
+                    ast.fix_missing_locations(g)
+                    res = run_.call_def(g, [env13["self"], tuple(run_.ev(a_) for a_ in call.args)], kw)
+                    return res
+                if norm(call.func) in ("deque", "collections.deque") and len(call.args) <= 1:
+                    return list(run_.ev(call.args[0])) if call.args else []
+                raise Unsupported(f"call {norm(call)[:50]}")
+            run = Run(cfg, env13, toks, is_fetch, extern13)
             try:
                 run.run()
             except OutOfTokens:
